@@ -291,5 +291,123 @@ theorem lookupScoreQ_spec {Q : List (Int × Rat)} (hsort : Q.Pairwise (fun a b =
       · rw [htb]; exact heq
       · split <;> simp
 
+/-! ### one call of `lookup_score`, in terms of the exact distribution of the integer score -/
+
+/-- a window `[mn, mx]` is sound for `p`: the bucket above it weighs at most `p`, and below it
+    there is either enough mass to reach `p` or no mass at all -/
+structure Sound (bg : List Rat) (im : List (List Int)) (p : Rat) (mn mx : Int) : Prop where
+  le : mn ≤ mx + 1
+  upper : tailD bg im (mx + 1) ≤ p
+  lower : p ≤ tailD bg im mn ∨ ∀ k, k ≤ mn → tailD bg im k = tailD bg im mn
+
+theorem lookupScore_D {bg : List Rat} (hbg : ∀ b ∈ bg, 0 ≤ b) {im : List (List Int)}
+    (him : NonnegRows im) (hlen : 2 ≤ im.length) {p : Rat} (hp : 0 < p) (E : Rat) {mn mx : Int}
+    (hs : Sound bg im p mn mx) :
+    ∃ alpha a b, lookupScoreQ E (distribution im bg mn mx) p = some (alpha, a, b) ∧
+      tailD bg im (alpha + 1) ≤ p ∧
+      (∀ lo hi, lo ≤ hi → hi ≤ alpha → tailD bg im hi < tailD bg im lo → p ≤ tailD bg im lo) ∧
+      (a ≠ b → tailD bg im alpha ≤ p ∧
+        ∃ ae, ((alpha - ae : Int) : Rat) ≤ E ∧ p ≤ tailD bg im ae) := by
+  have hne : im ≠ [] := by intro h; simp [h] at hlen
+  set Q := distribution im bg mn mx with hQ
+  have hQall := distribution_forall hbg him hs.le
+  have hQle := distribution_keys_le bg hlen mn mx
+  have hsort := distribution_sorted bg im mn mx
+  have hQne := distribution_ne_nil bg hne mn mx
+  rw [← hQ] at hQall hQle hsort hQne
+  have hT : ∀ k, mn ≤ k → k ≤ mx + 1 → tailFrom Q k = tailD bg im k :=
+    fun k h1 h2 => tailFrom_distribution bg him hne h1 h2
+  have hanti : ∀ {j k : Int}, j ≤ k → tailD bg im k ≤ tailD bg im j :=
+    fun h => tailD_antitone hbg im h
+  -- the top entry is the bucket
+  have hU : ∀ top, Q.getLast? = some top → top.2 ≤ p := by
+    intro top htop
+    have htopQ : top ∈ Q := List.mem_of_getLast? htop
+    obtain ⟨eb, hebQ, hebk⟩ := distribution_bucket_key bg hne mn mx
+    rw [← hQ] at hebQ
+    have hkey : top.1 = mx + 1 := by
+      have h1 := hQle top htopQ
+      have h2 : eb.1 ≤ top.1 := by
+        obtain ⟨l, hl⟩ := List.getLast?_eq_some_iff.1 htop
+        rw [hl] at hsort hebQ
+        rw [List.mem_append, List.mem_singleton] at hebQ
+        rcases hebQ with h | h
+        · exact le_of_lt ((List.pairwise_append.1 hsort).2.2 eb h top (by simp))
+        · rw [h]
+      omega
+    have h3 : tailFrom Q top.1 = top.2 := by
+      obtain ⟨l, hl⟩ := List.getLast?_eq_some_iff.1 htop
+      rw [tailFrom_eq, hl, wsum_append]
+      rw [hl] at hsort
+      have : wsum l (fun j => if top.1 ≤ j then 1 else 0) = wsum l (fun _ => 0) := by
+        apply wsum_congr
+        intro e he
+        have := (List.pairwise_append.1 hsort).2.2 e he top (by simp)
+        have : ¬ top.1 ≤ e.1 := by omega
+        simp [this]
+      rw [this]; simp [wsum]
+    rw [← h3, hT _ (hQall top htopQ).1 (hQle top htopQ), hkey]
+    exact hs.upper
+  obtain ⟨alpha, a, b, hres, ⟨ea, heaQ, heak⟩, hcase⟩ := lookupScoreQ_spec (E := E) hsort hQne hp hU
+  have ha1 : mn ≤ alpha := by rw [← heak]; exact (hQall ea heaQ).1
+  have ha2 : alpha ≤ mx + 1 := by rw [← heak]; exact hQle ea heaQ
+  refine ⟨alpha, a, b, hres, ?_⟩
+  rcases hcase with ⟨ae, ⟨ee, heeQ, heek⟩, hlt, hgap, h1, h2, h3⟩ | ⟨h1, h2⟩ | ⟨h1, h2, h3⟩
+  · -- p strictly between two consecutive tails
+    have he1 : mn ≤ ae := by rw [← heek]; exact (hQall ee heeQ).1
+    rw [hT alpha ha1 ha2] at h1
+    rw [hT ae he1 (by omega)] at h2
+    refine ⟨le_trans (hanti (by omega)) (le_of_lt h1), ?_, ?_⟩
+    · intro lo hi hle hhi hstrict
+      by_cases hlo : lo ≤ ae
+      · exact le_trans (le_of_lt h2) (hanti hlo)
+      · exfalso
+        have : tailFrom Q lo = tailFrom Q hi := by
+          apply tailFrom_eq_of_no_key _ hle
+          intro e he
+          rcases hgap e he with h | h
+          · left; omega
+          · right; omega
+        rw [hT lo (by omega) (by omega), hT hi (by omega) (by omega)] at this
+        rw [this] at hstrict
+        exact lt_irrefl _ hstrict
+    · intro hab
+      exact ⟨le_of_lt h1, ae, h3 hab, le_of_lt h2⟩
+  · -- a tail equals p
+    rw [hT alpha ha1 ha2] at h1
+    refine ⟨le_trans (hanti (by omega)) (le_of_eq h1), ?_, fun hab => absurd h2 hab⟩
+    intro lo hi _ hhi _
+    rw [← h1]; exact hanti (by omega)
+  · -- the scan ran out of keys: alpha is the lowest key
+    refine ⟨?_, ?_, fun hab => absurd h3 hab⟩
+    · by_cases hamx : alpha ≤ mx
+      · have : tailFrom Q (alpha + 1) = wsum Q (fun k => if alpha < k then 1 else 0) := by
+          rw [tailFrom_eq]; apply wsum_congr; intro e _; simp [Int.add_one_le_iff]
+        rw [← hT (alpha + 1) (by omega) (by omega), this]
+        exact le_of_lt h2
+      · have : alpha = mx + 1 := by omega
+        exact le_trans (hanti (by omega)) hs.upper
+    · intro lo hi hle hhi hstrict
+      -- all the mass of the window sits at or above alpha
+      have hflat : ∀ j, mn ≤ j → j ≤ alpha → tailD bg im j = tailD bg im alpha := by
+        intro j hj1 hj2
+        rw [← hT j hj1 (by omega), ← hT alpha ha1 ha2]
+        apply tailFrom_eq_of_no_key _ hj2
+        intro e he; right; exact h1 e he
+      rcases hs.lower with hl | hl
+      · by_cases hlo : lo ≤ mn
+        · exact le_trans hl (hanti hlo)
+        · exfalso
+          rw [hflat lo (by omega) (by omega), hflat hi (by omega) hhi] at hstrict
+          exact lt_irrefl _ hstrict
+      · exfalso
+        have hall : ∀ j, j ≤ alpha → tailD bg im j = tailD bg im alpha := by
+          intro j hj
+          by_cases hjm : mn ≤ j
+          · exact hflat j hjm hj
+          · rw [hl j (by omega)]; exact hflat mn (le_refl _) ha1
+        rw [hall lo (by omega), hall hi hhi] at hstrict
+        exact lt_irrefl _ hstrict
+
 end C13
 end LMV
